@@ -53,9 +53,11 @@ def step (j : Json) : R Json := do
     let g ← fTopo j
     pure (ofList subJson (partitionGrid g (← fNats j "ind")))
   | "pstruct" =>
-    match partitionStructured (← fNats j "fine") (← fNats j "coarse") with
-    | .error e => pure (errJson e)
-    | .ok p => pure (obj [("part", ofInts p)])
+    let fine ← fNats j "fine"
+    let coarse ← fNats j "coarse"
+    match partitionStructured fine coarse with
+    | .error e => pure (obj [("hyp", .bool (dimsOkB fine coarse)), ("err", (match e with | .index => "IndexError" | .value => "ValueError" | .assertion => "AssertionError"))])
+    | .ok p => pure (obj [("hyp", .bool (dimsOkB fine coarse)), ("part", ofInts p)])
   | "dcd" =>
     match dcd exactRoot (← fNat j "target") (← fNats j "fine") with
     | .error e => pure (errJson e)
@@ -71,8 +73,16 @@ def step (j : Json) : R Json := do
     let margin := centers.foldl (fun m x =>
       (axes.zip x).foldl (fun m ax => let d := axisMargin ax.1 ax.2; if d < m then d else m) m) (1 : Rat)
     match pcoord axes centers with
-    | .error e => pure (obj [("coarse", ofNats cs), ("margin", ofRat margin), ("res", errJson e)])
-    | .ok p => pure (obj [("coarse", ofNats cs), ("margin", ofRat margin), ("res", obj [("part", ofInts p)])])
+    | .error e => pure (obj [("coarse", ofNats cs), ("margin", ofRat margin), ("hyp", .bool (centers.all (allOkB axes))), ("res", errJson e)])
+    | .ok p => pure (obj [("coarse", ofNats cs), ("margin", ofRat margin), ("hyp", .bool (centers.all (allOkB axes))), ("res", obj [("part", ofInts p)])])
+  | "s2g" =>
+    match subgridToGrid (← fNat j "num_faces") (← fNat j "num_cells") (← fNats j "loc_faces") (← fNats j "loc_cells") (← fNat j "nd") with
+    | .error e => pure (errJson e)
+    | .ok r => pure (obj [("face_rows", ofNats r.1), ("cell_cols", ofNats r.2)])
+  | "pwrap" =>
+    match partitionWrapperTensor (← fNat j "num") (← fNats j "fine") with
+    | .error e => pure (errJson e)
+    | .ok p => pure (obj [("part", ofInts p)])
   | "overlap" =>
     match overlap (← fNatss j "ce") (← fNats j "cells") (← fNat j "layers") with
     | .error e => pure (errJson e)
